@@ -47,16 +47,32 @@ def oidOr (o : List Nat) : Bytes := (addOID o).getD []
 /-- one attribute: SEQUENCE { type, SET { value } } -/
 def attrSeq (ty : List Nat) (value : Bytes) : Bytes := addASN1 tSEQ (oidOr ty ++ addASN1 tSET value)
 
+/-- `bytes.Compare a b < 0` -/
+def bytesLt : Bytes → Bytes → Bool
+  | [], [] => false
+  | [], _ :: _ => true
+  | _ :: _, [] => false
+  | x :: xs, y :: ys => if x < y then true else if y < x then false else bytesLt xs ys
+
+/-- insert `e` in front of the first element that is not smaller (keeps equal elements in order) -/
+def insertEnc (e : Bytes) : List Bytes → List Bytes
+  | [] => [e]
+  | x :: xs => if bytesLt x e then x :: insertEnc e xs else e :: x :: xs
+
+/-- `sort.SliceStable(elems, bytes.Compare < 0)`: the stable sort of the encodings (F19: DER orders
+    the elements of a SET OF by their encodings) -/
+def sortEnc (l : List Bytes) : List Bytes := l.foldr insertEnc []
+
 /-- body of `Attributes.Marshal`'s SET; `none` = `BytesOrPanic` panics (invalid OID) -/
 def attrsBody (a : Attrs) : Option Bytes :=
   match a.contentType with
   | none => none
   | some ct =>
     if !validOID ct || !(a.other.all fun x => validOID x.1) then none else
-    some (attrSeq oidContentType (oidOr ct) ++
-      (match a.time with | some t => attrSeq oidSigningTime (addASN1 tUTC t) | none => []) ++
-      attrSeq oidMessageDigest (addOctets a.md) ++
-      (a.other.map fun x => attrSeq x.1 x.2).flatten)
+    some (sortEnc ([attrSeq oidContentType (oidOr ct)] ++
+      (match a.time with | some t => [attrSeq oidSigningTime (addASN1 tUTC t)] | none => []) ++
+      [attrSeq oidMessageDigest (addOctets a.md)] ++
+      (a.other.map fun x => attrSeq x.1 x.2))).flatten
 
 /-- `Attributes.Marshal` -/
 def Attrs.marshal (a : Attrs) : Outcome Bytes :=
